@@ -4,7 +4,6 @@ import (
 	"fmt"
 	"strings"
 
-	"github.com/jsightapi/jsight-api-go-library/catalog"
 	"github.com/jsightapi/jsight-api-go-library/core"
 	"github.com/jsightapi/jsight-api-go-library/directive"
 
@@ -396,7 +395,7 @@ func c15EvalE2E(t *fw.T, c *fw.Case) {
 
 // ---- annotations ----
 
-var c15AnnSymbols = []string{"a", "b", " ", "\t", "/", "*", "\"", "é"}
+var c15AnnSymbols = []string{"a", "b", " ", "\t", "/", "*", "\"", "é", "\u00a0", "\u3000"}
 
 var c15AnnHosts = []string{"type", "method", "response", "server", "tag", "enum"}
 
@@ -465,6 +464,8 @@ func c15AnnField(host string, root *jsonx.Node) (string, bool) {
 	}
 }
 
+// collapseWS collapses every kind of blank (the statement does not say whether a no-break space is whitespace:
+// both sides of the comparison are normalised, so either reading is accepted here; C04 pins the content).
 func collapseWS(s string) string { return strings.Join(strings.Fields(s), " ") }
 
 func c15EvalAnnotation(t *fw.T, c *fw.Case) {
@@ -499,11 +500,11 @@ func c15EvalAnnotation(t *fw.T, c *fw.Case) {
 		return
 	}
 	// user-type annotations are stored raw in the catalog struct; the statement speaks of collapsed whitespace
-	if collapseWS(fl) != want || (fl != want && fl != catalog.Annotation(src)) {
+	if collapseWS(fl) != want {
 		t.Violation("annotation-text:"+host, fmt.Sprintf("annotation %q reads %q, expected %q", src, fl, want))
 		return
 	}
-	if fl != want {
+	if strings.Contains(fl, "  ") || strings.ContainsAny(fl, "\t\n\r") || strings.HasPrefix(fl, " ") || strings.HasSuffix(fl, " ") {
 		t.Violation("annotation-not-collapsed:"+host, fmt.Sprintf("annotation %q reads %q: whitespace runs are not collapsed (expected %q)", src, fl, want))
 		return
 	}
